@@ -324,6 +324,22 @@ class BlsFamily:
                     pk2, m2 = pks + [pks[0]], msgs + [b"again"]
                     sg3 = bytes(S.Aggregate(sigs + [oracle_sig(sks[0], mprime(sname, pks[0], b"again"), tag)]))
                     checks.append(("repeated key", av(pk2, m2, sg3), True))
+                if sname != "G2Basic":
+                    # the same (key, message) pair listed twice, and two signers whose keys cancel (sk, r - sk) on one message:
+                    # both are genuine aggregates outside the basic suite
+                    s0, p0 = sks[0], pks[0]
+                    sx, px = (sks[0] * 7 + 3) % R or 5, None
+                    px = oracle_pk(sx)
+                    tri_p, tri_m = [p0, px, p0], [b"m", b"x", b"m"]
+                    tri_s = bytes(S.Aggregate([oracle_sig(k_, mprime(sname, q_, m_), tag) for k_, q_, m_ in zip([s0, sx, s0], tri_p, tri_m)]))
+                    checks.append(("the same (key, message) pair twice", av(tri_p, tri_m, tri_s), True))
+                    checks.append(("the same (key, message) pair twice, as the whole list", av([p0, p0], [b"m", b"m"],
+                                   bytes(S.Aggregate([oracle_sig(s0, mprime(sname, p0, b"m"), tag)] * 2))), True))
+                    pn = oracle_pk(R - s0)
+                    can_s = bytes(S.Aggregate([oracle_sig(s0, mprime(sname, p0, b"shared"), tag), oracle_sig(R - s0, mprime(sname, pn, b"shared"), tag)]))
+                    checks.append(("two signers with cancelling keys on one message", av([p0, pn], [b"shared", b"shared"], can_s), True))
+                    checks.append(("three signers, two of them cancelling, one message",
+                                   av([p0, px, pn], [b"shared"] * 3, bytes(S.Aggregate([can_s, oracle_sig(sx, mprime(sname, px, b"shared"), tag)]))), True))
                 if sname == "G2ProofOfPossession":
                     def fav(P_, m_, s_):
                         try:
